@@ -85,12 +85,15 @@ TEXT = {
         'no growth and no unreferenced bytes with no_holes).',
  'C10': 'Mixed. Proved: should_compress honours YES/NO/KEEP and leaves the stream position untouched, estimate_compression restores '
         'the position, _write_data_to_packfile stores a complete zlib stream of the object iff asked; the bulk '
-        'metadata generator reports the size / compressed flag / stored length of the committed row. Bounded: flags, sizes, lengths, '
+        'metadata generator reports the size / compressed flag / stored length of the committed row; repack_pack gives every '
+        'copied row the compression its mode asks for (KEEP: unchanged, YES, NO). Bounded: flags, sizes, lengths, '
         'totals and bulk metadata after every pack/repack, chained modes.',
  'C12': 'Mixed. Proved: the hashing helpers used by validate (compute_hash_and_size, _compute_hash_for_file) return the digest and '
         'length of exactly the bytes read; _validate_hashkeys_pack (for a pack whose indexed ranges are readable) reports exactly '
         'the rows whose (inflated) bytes do not hash to their key and exactly the rows whose (inflated) length differs from the '
-        'recorded size, modifies nothing and closes the pack. Bounded: validate() clean after every step; never clean after bit flips / index-field '
+        'recorded size, modifies nothing and closes the pack; validate() (no callback) returns exactly: the loose files whose content '
+        'does not hash to their name, the rows with wrong digest / wrong size over ONE index snapshot for all packs, and leaves '
+        'nothing open. Bounded: validate() clean after every step; never clean after bit flips / index-field '
         'perturbations / loose damage that change what is read.',
  'C13': 'Mixed. Proved: _get_pack_id_to_write_to returns the first pack at or above the cached id that is absent or below target and '
         'every skipped pack is full; lock_pack opens the pack in append mode at its end under an exclusive lock; '
